@@ -412,6 +412,39 @@ def add_interleaving(sl):
     observe("a sample that is being added while the worker drains is neither lost nor duplicated", sorted(ids) == list(range(1, n0 + 1)) + [99])
 
 
+def send_samples_sizes(sl):
+    """Worker.send_samples on drains of very different sizes (around every power of two up to 2^17): however the samples are batched
+    into messages, the driver receives every drained sample exactly once and in order. Samples are plain concrete objects here."""
+    sizes = sorted({max(0, (1 << k) + d) for k in range(0, 18) for d in (-1, 0, 1)} | {3 * (1 << 14) + 5, 100000})
+    n = sizes[concrete(fresh_int("samples_in_one_drain_(index_into_the_size_family)", 0, len(sizes) - 1))]
+    install = actors.install_driver_stubs
+    install()
+    sys_ = actors.System()
+    da_addr = sys_.create(actors.Endpoint)
+    w_addr = sys_.create(driver.Worker, parent=da_addr)
+    w = sys_.actors[w_addr.addressDetails]
+    w.driver_actor = da_addr
+    w.worker_id = 0
+    w.sampler = driver.Sampler(start_timestamp=0, buffer_size=max(n, 1))
+    for i in range(n):
+        w.sampler.q.put_nowait(i)
+    returned = w.send_samples()
+    msgs = [m for (_, m) in sys_.chan.get((w_addr.addressDetails, da_addr.addressDetails), ()) if isinstance(m, driver.UpdateSamples)]
+    shipped = [x for m in msgs for x in m.samples]
+    core.trace("messages", len(msgs))
+    core.note("samples / messages", (n, [len(m.samples) for m in msgs][:8]))
+    observe("the drain is returned to the caller", list(returned) == list(range(n)))
+    observe("every drained sample is shipped exactly once, in order, whatever the batching", shipped == list(range(n)))
+    observe("no empty messages", all(len(m.samples) > 0 for m in msgs) and all(m.client_id == 0 for m in msgs))
+    observe("the queue is empty afterwards", w.sampler.q.empty())
+
+
+def _c04_complete_during_wait(sl):
+    from harness import c04
+
+    return c04.timings(sl)
+
+
 class _RcMetrics:
     def __init__(self, p):
         self.p = p
@@ -771,7 +804,7 @@ def adapter_wiring(sl):
             sampler = driver.Sampler(start_timestamp=time.perf_counter())
             import threading
 
-            adapter = driver.AsyncIoAdapter(cfg, None, allocs, sampler, threading.Event(), threading.Event(), "continue", contexts, 0)
+            adapter = actors.REAL["AsyncIoAdapter"](cfg, None, allocs, sampler, threading.Event(), threading.Event(), "continue", contexts, 0)
             asyncio.run(adapter.run())
             for smp in sampler.samples:
                 all_samples.append((row, smp))
@@ -824,8 +857,16 @@ HARNESSES.append(Harness("add_interleaving", add_interleaving, "bounded-exhausti
                          stubs=["consumer thread = a drain injected by sys.settrace at a line event inside Sampler.add / Sample.__init__"],
                          bounds={"samples before": "0..2", "injection point": "every line event of the add in esrally/driver/driver.py"},
                          doc="add vs. concurrent drain at statement granularity"))
+HARNESSES.append(Harness("send_samples_sizes", send_samples_sizes, "bounded-exhaustive", lambda tier: [{}], reads=[driver.Worker.send_samples, driver.Sampler.samples.fget],
+                         stubs=["fake actor runtime (messages recorded)", "samples are plain integers (only identity and order matter)"],
+                         bounds={"drain sizes": "0, every 2^k and 2^k +- 1 up to 2^17, 49157, 100000"}, doc="shipping a drain of any size: exactly once, in order"))
+HARNESSES.append(Harness("request_in_flight_at_completion", _c04_complete_during_wait, "symbolic",
+                         lambda tier: [{"requests": 2, "throttled": True, "complete_during_wait": True, "max_gap": 2.5, "_w": 3}],
+                         reads=[driver.AsyncExecutor.__call__, driver.Sampler.add], stubs=["clock, asyncio.sleep, schedule handle, runner (harness shared with C04 timings)"],
+                         real_valued=True, bounds={"requests": "<=2", "completion": "the parent element may be completed by another client during any throttle wait"},
+                         doc="a request executed while the parent element is being completed is still recorded"))
 HARNESSES.append(Harness("adapter_wiring", adapter_wiring, "bounded-exhaustive", lambda tier: [{}],
-                         reads=[driver.AsyncIoAdapter.run, driver.schedule_for, driver.AsyncExecutor.__call__, driver.Sampler.add, driver.Allocator.allocations.fget],
+                         reads=[actors.REAL["AsyncIoAdapter"].run, driver.schedule_for, driver.AsyncExecutor.__call__, driver.Sampler.add, driver.Allocator.allocations.fget],
                          stubs=["EsClientFactory (client object remembering its client id)", "track.operation_parameters", "runner registry (stub runner reporting which client object it was given)"],
                          assumptions=["runs on a real event loop and the real clock (nothing symbolic: a finite family of allocation matrices)"],
                          bounds={"parallel element": "1..3 single-client sub-tasks on 1..2 clients (over-committed when sub-tasks > clients)", "iterations": "1..2",
